@@ -112,10 +112,6 @@ def region_cases(tier):
                 bt = ''.join(body)
                 if any(s in bt for s in forb_sub):
                     continue
-                if rname == 'block-comment' and (bt.endswith('*') or bt.startswith('+')):
-                    continue          # '/*' + '...*' + '*/' is fine, but '/*' + '*' + '/' would close early: keep it simple
-                if rname in ('dollar', 'dollar-tag') and False:
-                    continue
                 yield rname, op + bt + cl
 
 
